@@ -7,7 +7,7 @@ M = Module('contracts.c09', prop='C09')
 M.use('contracts.base')
 
 M.contract('xtuml.meta.MetaClass.select_many', [('self', MC), ('*args', None)], returns=QSET, trusted=True,
-           reason='TODO verify',
+           reason='assumed: decided by the bounded tier (c09 item select); the order claim needs the insertion order of OrderedSet(iterable), which contracts.c17 does not state',
            ensures={'pool-in-creation-order': 'implies(len(args) == 0, result is not None and fresh(result) and result.view == self.storage)'},
            modifies=[], ghost={'allocates': True})
 
@@ -16,7 +16,7 @@ def subtype_of(inst, rel_id):
     return subtype_witness(inst, rel_id)
 ''')
 M.contract('xtuml.meta.MetaModel.select_many', [('self', MM), ('kind', STR), ('*args', None)], returns=QSET, trusted=True,
-           reason='TODO verify',
+           reason='assumed: decided by the bounded tier (c09 item select); the order claim needs the insertion order of OrderedSet(iterable), which contracts.c17 does not state',
            requires={'class-known': 'upper(kind) in self.metaclasses'},
            ensures={'pool-in-creation-order': 'implies(len(args) == 0, result is not None and fresh(result) and result.view == self.metaclasses[upper(kind)].storage)'},
            modifies=[], ghost={'allocates': True})
@@ -46,3 +46,26 @@ M.contract('xtuml.meta.WhereEqual.__call__', [('self', WE), ('s', SeqT(INST))], 
            loops={0: Loop(inv={'matching-prefix-yielded': '_yielded == filtered(s, self, _i)', 'iterates': '_seq == s',
                                'items': 'len(items) == len(map_keys(self._dict_)) and all(items[j][0] == map_keys(self._dict_)[j] and items[j][1] == self._dict_[map_keys(self._dict_)[j]] for j in range(0, len(items)))'}),
                   1: Loop(inv={'all-earlier-items-match': 'all(attr_value(inst, map_keys(self._dict_)[j]) == self._dict_[map_keys(self._dict_)[j]] for j in range(0, _i))', 'iterates': '_seq == items'})})
+
+# ---- single-instance forms without query operators: the first element in model order, or None
+M.uninterpreted('queried', [SeqT(INST), INT], SeqT(INST))
+M.contract('xtuml.meta.apply_query_operators', [('iterable', SeqT(INST)), ('ops', None)], returns=SeqT(INST), trusted=True,
+           reason='bounded tier (c09 item select): with no operator the iterable is returned as it is — the first line of the function',
+           ensures={'no-operators-no-change': 'result == iterable'}, modifies=[])
+M.contract('xtuml.meta.MetaClass.select_one@noargs', [('self', MC)], returns=INST, statics={'args': PyTuple(())},
+           ensures={'first-stored-instance-or-none': 'result is (self.storage[0] if len(self.storage) > 0 else None)'}, modifies=[])
+M.contract('xtuml.meta.MetaClass.select_one', [('self', MC), ('*args', None)], returns=INST, trusted=True,
+           reason='verified as select_one@noargs for the form without operators; with operators: bounded tier',
+           ensures={'first-stored-instance-or-none': 'implies(len(args) == 0, result is (self.storage[0] if len(self.storage) > 0 else None))'}, modifies=[])
+M.contract('xtuml.meta.MetaModel.find_metaclass', [('self', MM), ('kind', STR)], returns=MC, trusted=True,
+           reason='contracts.c10 (proved there)', requires={}, ensures={'found': 'implies(upper(kind) in self.metaclasses, result is self.metaclasses[upper(kind)])'},
+           raises=[Raises('UnknownClassException', when='upper(kind) not in self.metaclasses')], modifies=[])
+M.contract('xtuml.meta.MetaModel.select_one@noargs', [('self', MM), ('kind', STR)], returns=INST, statics={'args': PyTuple(())},
+           requires={'class-known': 'upper(kind) in self.metaclasses and self.metaclasses[upper(kind)] is not None'},
+           ensures={'first-stored-instance-of-the-class-in-any-spelling-or-none':
+                    'result is (self.metaclasses[upper(kind)].storage[0] if len(self.metaclasses[upper(kind)].storage) > 0 else None)'}, modifies=[])
+NAV1 = RefT('NavOneChain')
+M.fields({'NavOneChain.handle': SeqT(INST)})
+M.klass('NavOneChain', bases=[])
+M.contract('xtuml.meta.NavOneChain.__call__@noargs', [('self', NAV1)], returns=INST, statics={'args': PyTuple(())},
+           ensures={'first-navigated-instance-or-none': 'result is (self.handle[0] if len(self.handle) > 0 else None)'}, modifies=[])
